@@ -22,6 +22,8 @@ class C18(ConcBase):
     exhaustive_note = {"quick": "all schedules of length 18 with <= 2 context switches, 2 threads, 18 (tree, program pair) combinations",
                        "thorough": "all schedules of length 24 with <= 3 context switches, 2 threads, 90 (tree, program pair) combinations"}
 
+    miri_programs = ["data"]
+
     def cases(self, tier, seed):
         return self.gen(tier, seed, PROGS, 18)
 
@@ -36,6 +38,8 @@ class C18(ConcBase):
         return None
 
     def spec_raw(self, case, raw):
+        if case.startswith("M "):
+            return None if raw == "ok" else "Miri on program `%s`: %s" % (case.split(" ")[1], raw)
         return CR.check_c18(case, raw)
 
     def nontrivial(self, case, impl):
